@@ -13,10 +13,13 @@ RULE = ('streams: owner (universe / lattice decks incl. lattices filled with the
         'from spelling families — trailing zeros, 1. / 1.0 / 1.00, e / E / d / D / bare-sign exponents — and from '
         'numerically different values: same spelling class (Lean spec spellClass) ⇒ one composition name, different '
         'value ⇒ different names, every GEOMCOMP name defined in COMPOSITION); normfloat (normalize_float vs the Lean '
-        'model on an enumerated grammar of literals). Non-trivial = deck has ≥ 2 cells of one material.')
-NOT_PROVED = ['that GEOMCOMP attaches each volume to the composition named by this key is decided by the owner stream '
-              '(point monitor on the written file), not by a theorem; numerically equal densities written with different '
-              'exponents get different keys by design (see ASSUMPTIONS)']
+        'model on an enumerated grammar of literals); geomcomp (constructGeomCompT4 of real conversions — universe, '
+        'lattice and LIKE decks, all option sets — vs the Lean model: same names in the same order, same declared '
+        'counts, same volume lists). Non-trivial = deck has ≥ 2 cells of one material.')
+NOT_PROVED = ['geomcomp_attachment / attached_to_owner are about the GEOMCOMP model (tied to the code by the geomcomp stream) '
+              'and leaf_material_is_filler about the pot_fill model; that the owner recorded in a volume is the cell '
+              'that geometrically owns its points is C05 (locate theorems + point monitor of the owner stream); '
+              'numerically equal densities written with different exponents get different keys by design (see ASSUMPTIONS)']
 ASSUMPTIONS = ["numerically equal densities written with different exponents (e.g. -0.27E1 vs -2.7) are different "
                "spellings in the property's sense and may get two compositions"]
 
@@ -40,7 +43,8 @@ NEAR = [('-0.7123456', '-0.7123461'), ('6.40875-2', '6.408751-2'), ('-2.7', '-2.
 
 def plan(tier):
     q = tier == 'quick'
-    return [('owner', 200 if q else 3500, {}), ('spelling', 200 if q else 3000, {}), ('normfloat', 1 if q else 4, {})]
+    return [('owner', 200 if q else 3500, {}), ('spelling', 200 if q else 3000, {}), ('normfloat', 1 if q else 4, {}),
+            ('geomcomp', 150 if q else 3000, {})]
 
 
 def search_plan(tier, disagreements):
@@ -67,6 +71,49 @@ def literals(n_exhaustive):
 def run_case(stream, seed, ctx, params):
     rng = random.Random(seed)
     drv = ctx['drv']
+    if stream == 'geomcomp':
+        kind = rng.random()
+        if kind < 0.5:
+            d = U.build_universe_deck(rng, depth=rng.randint(1, 3), macro_p=0.1, tr_p=0.0, fill_tr_p=0.4, trcl_p=0.2,
+                                      reuse_p=0.5)
+        elif kind < 0.8:
+            d = U.build_universe_deck(rng, depth=2, macro_p=0.0, tr_p=0.0, fill_tr_p=0.2, trcl_p=0.1, lattice_p=0.7)
+        else:
+            d = G.build_flat_deck(rng, macro_p=0.1, ncells=rng.randint(3, 6), imp0_p=0.2)
+        for c in d.cells:
+            if c.mat and rng.random() < 0.5:
+                c.rho = rng.choice(rng.choice(FAMILIES))
+        args = random_options(rng)
+        text = D.render_deck(d, D.Layout(rng))
+        argv = list(args) + [x for lo in (d.lattice_opts or []) for x in ('--lattice', lo)]
+        key = h((text, tuple(argv)))
+        res, cap = C.convert_capture(text, argv)
+        if not res.ok:
+            return None if is_degenerate(res) else dict(hashes=[key], nontrivial_hashes=[], dist={'geomcomp:exception': 1},
+                                                        sample=None, failures=[])
+        if any('constructGeomCompT4' in m for m in cap.missing):
+            return dict(hashes=[key], nontrivial_hashes=[], dist={'geomcomp:anchor-missing': 1}, sample=None,
+                        failures=[fail('disagreement', 'constructGeomCompT4 is no longer called by writeT4GeomComp under this name',
+                                       {'stream': 'geomcomp', 'stage': 'anchor'}, {'deck': text, 'args': argv})])
+        gc = cap.geomcomp
+        if gc is None:
+            return dict(hashes=[key], nontrivial_hashes=[], dist={'geomcomp:not-called': 1}, sample=None,
+                        failures=[fail('infra', 'geomcomp capture: %r' % (cap.error,), {'stream': 'geomcomp'}, None)] if cap.error else [])
+        resp = drv.ask('geomcomp ' + lean.hx(gc['request']))
+        fails = []
+        if resp.rstrip() != gc['expected'].rstrip():
+            fails.append(fail('disagreement', 'constructGeomCompT4: code %s / model %s' % (gc['expected'][:400], resp[:400]),
+                              {'stream': 'geomcomp'}, {'deck': text, 'args': argv, 'request': gc['request']}))
+        # what is written is what was constructed
+        block = res.t4[res.t4.find('GEOMCOMP'):res.t4.find('END_GEOMCOMP')].split('\n')[1:]
+        written = ['(g %s %s)' % (lean.hx(ln.split()[0][1:]), ' '.join(ln.split()[1:])) for ln in block if ln.strip()]
+        if ('ok ' + ' '.join(written)).rstrip() != gc['expected'].rstrip():
+            fails.append(fail('disagreement', 'GEOMCOMP block differs from what constructGeomCompT4 returned: %r' % (written[:4],),
+                              {'stream': 'geomcomp', 'stage': 'writer'}, {'deck': text, 'args': argv}))
+        ngroups = gc['expected'].count('(g ')
+        return dict(hashes=[key], nontrivial_hashes=[key] if ngroups >= 2 else [],
+                    dist={'geomcomp:groups': ngroups, 'geomcomp:fictive-volumes': gc['request'].count(' F ') + gc['request'].count(' F)')},
+                    sample={'expected': gc['expected'][:300]}, failures=fails)
     if stream == 'normfloat':
         from t4_geom_convert.Kernel.Utils import normalize_float
         lits = literals(0)
